@@ -281,6 +281,12 @@ type GRPCBroker struct {
 
 	dialMutex sync.Mutex
 
+	// knocking is the ID of the knock that is currently waiting for its ack
+	// (dialMutex allows one at a time); valid only while isKnocking is set.
+	// Guarded by the embedded mutex.
+	knocking   uint32
+	isKnocking bool
+
 	muxer grpcmux.GRPCMuxer
 
 	sync.Mutex
@@ -486,6 +492,18 @@ func (b *GRPCBroker) listenForKnocks(id uint32) error {
 }
 
 func (b *GRPCBroker) knock(id uint32) error {
+	// From here on an ack for this ID belongs to us. An ack that arrives
+	// while nobody is knocking (our wait below timed out, the other side
+	// accepted late) is dealt with by Run.
+	b.Lock()
+	b.knocking, b.isKnocking = id, true
+	b.Unlock()
+	defer func() {
+		b.Lock()
+		b.isKnocking = false
+		b.Unlock()
+	}()
+
 	// Send a knock.
 	err := b.streamer.Send(&plugin.ConnInfo{
 		ServiceId: id,
@@ -500,31 +518,61 @@ func (b *GRPCBroker) knock(id uint32) error {
 	verifhook.Point("grpcbroker.knock.sent", id)
 	// Wait for the ack.
 	p := b.getClientStream(id)
+	var msg *plugin.ConnInfo
 	select {
-	case msg := <-p.ch:
-		if msg.ServiceId != id {
-			return fmt.Errorf("handshake failed for multiplexing on id %d; got response for %d", id, msg.ServiceId)
-		}
-		if msg.Knock == nil || !msg.Knock.Knock || !msg.Knock.Ack {
-			return fmt.Errorf("handshake failed for multiplexing on id %d; expected knock and ack, but got %+v", id, msg.Knock)
-		}
-		if msg.Knock.Error != "" {
-			return fmt.Errorf("failed to knock for id %d: %s", id, msg.Knock.Error)
-		}
-
-		// The ack has been consumed: let timeoutWait drop the pending entry now
-		// instead of five seconds from now. A lingering entry is picked up by
-		// the next knock for this ID (a reconnect, a second connection), and if
-		// the old timer then deletes it before the new ack arrives, the ack is
-		// parked in a fresh entry nobody waits on and the knock times out.
-		p.once.Do(func() {
-			close(p.doneCh)
-		})
+	case msg = <-p.ch:
 	case <-time.After(5 * time.Second):
-		return fmt.Errorf("timeout waiting for multiplexing knock handshake on id %d", id)
+		// Stop claiming acks for this ID. Run parks an ack only while the
+		// claim is up and under the same lock, so either the ack made it into
+		// p.ch by now and we use it after all, or Run will see it as stale.
+		b.Lock()
+		b.isKnocking = false
+		b.Unlock()
+		select {
+		case msg = <-p.ch:
+		default:
+			return fmt.Errorf("timeout waiting for multiplexing knock handshake on id %d", id)
+		}
+	}
+
+	// The ack has been consumed: drop the pending entry now instead of
+	// leaving it to timeoutWait. A lingering entry is picked up by the next
+	// knock for this ID (a reconnect, a second connection), and if the old
+	// timer then deletes it before the new ack arrives, the ack is parked in
+	// a fresh entry nobody waits on and the knock times out.
+	b.Lock()
+	if b.clientStreams[id] == p {
+		delete(b.clientStreams, id)
+	}
+	b.Unlock()
+	p.once.Do(func() {
+		close(p.doneCh)
+	})
+
+	if msg.ServiceId != id {
+		return fmt.Errorf("handshake failed for multiplexing on id %d; got response for %d", id, msg.ServiceId)
+	}
+	if msg.Knock == nil || !msg.Knock.Knock || !msg.Knock.Ack {
+		return fmt.Errorf("handshake failed for multiplexing on id %d; expected knock and ack, but got %+v", id, msg.Knock)
+	}
+	if msg.Knock.Error != "" {
+		return fmt.Errorf("failed to knock for id %d: %s", id, msg.Knock.Error)
 	}
 
 	return nil
+}
+
+// discardStaleAck handles a knock ack that no dial is waiting for any more:
+// the knock timed out on this side and the other side accepted the ID later.
+// By the time it sent the ack, the other side has told its muxer to hand the
+// next stream to that ID's listener, and until a stream arrives no other
+// brokered connection can be established. Open the stream the ack is waiting
+// for and close it again, so that the stale knock is used up.
+func (b *GRPCBroker) discardStaleAck() {
+	conn, err := b.muxer.Dial()
+	if err == nil {
+		conn.Close()
+	}
 }
 
 func (b *GRPCBroker) muxDial(id uint32) func(string, time.Duration) (net.Conn, error) {
@@ -615,6 +663,26 @@ func (m *GRPCBroker) Run() {
 		}
 
 		verifhook.Point("grpcbroker.run.recv", msg.ServiceId)
+		if msg.Knock != nil && msg.Knock.Knock && msg.Knock.Ack {
+			// A knock ack. Park it only for the dial that is waiting for it.
+			m.Lock()
+			if !m.isKnocking || m.knocking != msg.ServiceId {
+				m.Unlock()
+				if msg.Knock.Error == "" {
+					m.discardStaleAck()
+				}
+				continue
+			}
+			p := m.clientStreamLocked(msg.ServiceId)
+			select {
+			case p.ch <- msg:
+			default:
+			}
+			m.Unlock()
+			go m.timeoutWait(msg.ServiceId, p)
+			continue
+		}
+
 		// Initialize the waiter
 		var p *gRPCBrokerPending
 		if msg.Knock != nil && msg.Knock.Knock && !msg.Knock.Ack {
@@ -638,6 +706,10 @@ func (m *GRPCBroker) getClientStream(id uint32) *gRPCBrokerPending {
 	m.Lock()
 	defer m.Unlock()
 
+	return m.clientStreamLocked(id)
+}
+
+func (m *GRPCBroker) clientStreamLocked(id uint32) *gRPCBrokerPending {
 	p, ok := m.clientStreams[id]
 	if ok {
 		return p
